@@ -329,7 +329,8 @@ pub fn c11_chain() {
         let k = names.iter().position(|n| *n == name).unwrap();
         for lv in (0..upto).rev() {
             if (masks[lv] >> k) & 1 == 1 {
-                return Some(Value::Int((lv * 10 + k) as i64));
+                // the first inner scope binds `c` to null: a null binding shadows like any other value
+                return Some(if lv == 1 && k == 2 { Value::Null } else { Value::Int((lv * 10 + k) as i64) });
             }
         }
         None
@@ -349,7 +350,7 @@ pub fn c11_chain() {
         let mut c1 = root.new_inner_scope();
         for (k, n) in names.iter().enumerate() {
             if (masks[1] >> k) & 1 == 1 {
-                c1.add_variable_from_value(*n, Value::Int(10 + k as i64));
+                c1.add_variable_from_value(*n, if k == 2 { Value::Null } else { Value::Int(10 + k as i64) });
             }
         }
         look(&c1, 2);
